@@ -60,7 +60,7 @@ SubSeqs(s, n) == LET idx == { S \in SUBSET (1..Len(s)) : Cardinality(S) <= n }
 \* request-target classes: plain, escapes that must not be decoded or re-encoded, dot and empty segments, empty query,
 \* '+' and %20, repeated keys in client order, ';' inside a query (RFC 3986 allows it), long path
 Targets == { "/", "/a/b", "/a%2Fb", "/a%20b+c", "//double//slash", "/a/../b/./c", "/p?", "/p?x=1&x=2&a=3", "/p?q=a+b%20c", "/p?a=1;b=2",
-             "/p?k=%E4%BD%A0&empty=", "/caf%C3%A9", "/p?url=http%3A%2F%2Fx%2F%3Fy%3D1", "/*", "/p/~user/!$&'()*+,=:@" }
+             "/p?k=%E4%BD%A0&empty=", "/p?a=1&", "/p?&a=1", "/p?&", "/caf%C3%A9", "/p?url=http%3A%2F%2Fx%2F%3Fy%3D1", "/*", "/p/~user/!$&'()*+,=:@" }
 
 UAs == { <<>>,                                   \* no User-Agent header
          <<"">>, <<"kube-probe/">>, <<"kube-probe/1.26">>, <<"kube-probe">>, <<"Kube-Probe/1.26">>,
